@@ -67,6 +67,7 @@ type c36Prov struct {
 	rel     func()
 	live    bool
 	slow    bool
+	foreign bool          // attaches a non-invoker value to the lookup directive
 	release chan struct{} // closed by the driver: the slow resolver may finish
 	freed   bool
 	valued  bool // its value has been handed to the directive
@@ -97,6 +98,11 @@ func (p *c36Prov) HandleDirective(ctx context.Context, di directive.Instance) ([
 	d, ok := di.GetDirective().(bifrost_rpc.LookupRpcService)
 	if !ok || d.LookupRpcServiceID() != p.service {
 		return nil, nil
+	}
+	if p.foreign {
+		// a resolver that attaches a value which is not an rpc invoker (the lookup server
+		// must ignore it, when it comes and when it goes)
+		return directive.R(directive.NewValueResolver([]string{"not-an-invoker"}), nil)
 	}
 	if p.slow {
 		return directive.R(&c36SlowRes{p}, nil)
@@ -179,7 +185,7 @@ func init() {
 		Cfg:        dsim.Config{MaxChaosSteps: 60, MaxStableSteps: 2000, Horizon: 5 * time.Second},
 		Real:       []string{"rpc/access.AccessRpcServiceServer.LookupRpcService", "rpc.LookupRpcService directive", "controllerbus bus + directive controller (value add/remove, idle callbacks)"},
 		Stub:       []string{"the response stream is a harness object", "provider controllers are harness controllers resolving the directive with an inert invoker"},
-		FaultKinds: []string{"fault:provider-removed", "fault:noise-provider", "fault:slow-resolver", "fault:send-back-pressure", "fault:stream-cancel", "fault:clock-jump"},
+		FaultKinds: []string{"fault:provider-removed", "fault:noise-provider", "fault:slow-resolver", "fault:foreign-value-provider", "fault:send-back-pressure", "fault:stream-cancel", "fault:clock-jump"},
 		Notes:      []string{"availability and idle clauses decided against the bus; the component-ID round trip is probed as a short history of encodings (a pure function on the unchanged tree)"},
 	})
 }
@@ -223,7 +229,7 @@ func (w *c36World) Setup(s *dsim.Sim) {
 func (w *c36World) liveMatching() int {
 	n := 0
 	for _, p := range w.provs {
-		if p.live && p.service == "svc" && p.valued {
+		if p.live && p.service == "svc" && p.valued && !p.foreign {
 			n++
 		}
 	}
@@ -254,6 +260,9 @@ func (w *c36World) Actions(s *dsim.Sim, add func(dsim.Action)) {
 			} else if t.Bool(1, 3, "slow") {
 				p.slow = true
 				s.Count("fault:slow-resolver")
+			} else if t.Bool(1, 4, "foreign-value") {
+				p.foreign = true
+				s.Count("fault:foreign-value-provider")
 			}
 			rel, err := w.b.AddController(w.ctx, p, nil)
 			if err != nil {
